@@ -40,7 +40,9 @@ pub fn translate_query(query: RelationalQuery, dialect: Option<Dialect>) -> Resu
             recursive = recursive || rec;
         }
         query.with = Some(sql_ast::With {
-            recursive,
+            // a WITH clause that holds a recursive CTE is marked as a whole,
+            // in the dialects that have the keyword
+            recursive: recursive && ctx.dialect.has_recursive_keyword(),
             cte_tables,
             with_token: sqlparser::ast::helpers::attached_token::AttachedToken::empty(),
         });
